@@ -110,63 +110,80 @@ def run(check):
   g = cx.cfg(lr)
   loops = [n for n in g.nodes if n.kind == 'loop' and isinstance(n.owner, ast.For) and isinstance(n.owner.iter, ast.Call) and
            isinstance(n.owner.iter.func, ast.Attribute) and n.owner.iter.func.attr == 'sections']
-  rets = [n for n in walk_no_nested(lr.node, include_self=False) if isinstance(n, ast.Return) and isinstance(n.value, ast.Name)]
-  # return <pattern rules> + [<default rule>]
-  concat = [n for n in walk_no_nested(lr.node, include_self=False) if isinstance(n, ast.Return) and isinstance(n.value, ast.BinOp) and
-            isinstance(n.value.op, ast.Add) and isinstance(n.value.left, ast.Name) and isinstance(n.value.right, ast.List) and
-            len(n.value.right.elts) == 1 and isinstance(n.value.right.elts[0], ast.Name)]
-  if not rets and concat:
-    rets = [ast.copy_location(ast.Return(value=concat[0].value.left), concat[0])]
-  if not loops or not rets:
+  # the returned sequence: <list> [+ <list> | + [<rule>, ...]] ...   (parts, left to right)
+  def flatten(e):
+    if isinstance(e, ast.BinOp) and isinstance(e.op, ast.Add):
+      l, r = flatten(e.left), flatten(e.right)
+      return None if l is None or r is None else l + r
+    if isinstance(e, (ast.Name, ast.List)):
+      return [e]
+    if isinstance(e, ast.Call) and isinstance(e.func, ast.Name) and e.func.id == 'list' and len(e.args) == 1:
+      return flatten(e.args[0])
+    return None
+  ret_nodes = [n for n in walk_no_nested(lr.node, include_self=False) if isinstance(n, ast.Return) and n.value is not None]
+  parts = flatten(ret_nodes[0].value) if len(ret_nodes) == 1 else None
+  if not loops or not parts:
     r_o.cannot_decide('loadRelayRules: section loop or returned list not recognised')
   else:
     lp = loops[0]
-    lst = rets[0].value.id
     inside = g.in_loop_nodes(lp.owner)
-    muts = [c for c in walk_no_nested(lr.node, include_self=False) if isinstance(c, ast.Call) and isinstance(c.func, ast.Attribute)
-            and dotted(c.func.value) == lst]
-    bad = [c for c in muts if c.func.attr != 'append']
-    if bad:
-      r_o.violate('rule list not append-only', lr, bad[0], '`%s` can place a rule ahead of earlier ones' % short(bad[0]))
-    else:
-      r_o.ok('rule list built by append only', lr.loc(lp.owner))
-    in_loop = [c for c in muts if any(x is c for x in ast.walk(lp.owner))]
-    after = [c for c in muts if c not in in_loop and c.lineno > lp.owner.end_lineno]
-    def is_default_var(c):
-      a = c.args[0] if c.args else None
-      if not isinstance(a, ast.Name):
-        return False
-      nodes = g.node_containing(c)
-      if not nodes:
-        return False
-      vals = [value_assigned(d, a.id) for d in reaching_defs(g, a.id, nodes[0]) if d is not g.entry]
-      # assigned a RelayRule whose condition is the always-true lambda (the section marked `default`)
-      def always_true(x):
-        if isinstance(x, ast.Lambda):
-          return isinstance(x.body, ast.Constant) and x.body.value is True
-        if isinstance(x, ast.Name) and x.id in lr.module.functions:
-          fs = lr.module.functions[x.id]
-          body = [st for st in fs[0].node.body if not (isinstance(st, ast.Expr) and isinstance(st.value, ast.Constant))]
-          return len(fs) == 1 and len(body) == 1 and isinstance(body[0], ast.Return) and \
-            isinstance(body[0].value, ast.Constant) and body[0].value.value is True
-        return False
-      return any(isinstance(v, ast.Call) and dotted(v.func) == 'RelayRule' and any(always_true(x) for x in ast.walk(v)) for v in vals)
-    if concat and not after:
-      # the default rule is placed behind the collected list by the return expression itself
-      fake = ast.copy_location(ast.Call(func=ast.Attribute(value=ast.Name(id=lst, ctx=ast.Load()), attr='append', ctx=ast.Load()),
-                                        args=[concat[0].value.right.elts[0]], keywords=[]), concat[0])
-      fake._parent = concat[0]
-      after = [fake]
 
-      def _nc(c, _g=g, _ret=concat[0]):
-        return _g.nodes_of(_ret)
-      g_node_containing = g.node_containing
-      g.node_containing = lambda c: (_nc(c) if c is fake else g_node_containing(c))
-    if in_loop and after and all(is_default_var(c) for c in after):
-      r_o.ok('pattern rules appended in section order, default rule after the loop', lr.loc(after[0]))
+    def always_true(x):
+      if isinstance(x, ast.Lambda):
+        return isinstance(x.body, ast.Constant) and x.body.value is True
+      if isinstance(x, ast.Name) and x.id in lr.module.functions:
+        fs = lr.module.functions[x.id]
+        body = [st for st in fs[0].node.body if not (isinstance(st, ast.Expr) and isinstance(st.value, ast.Constant))]
+        return len(fs) == 1 and len(body) == 1 and isinstance(body[0], ast.Return) and \
+          isinstance(body[0].value, ast.Constant) and body[0].value.value is True
+      return False
+
+    def is_default(a, at):
+      """the element is a RelayRule whose condition is the always-true function (the section marked `default`)"""
+      vals = [a]
+      if isinstance(a, ast.Name):
+        nodes = g.node_containing(at) or g.nodes_of(at)
+        vals = [value_assigned(d, a.id) for d in reaching_defs(g, a.id, nodes[0]) if d is not g.entry] if nodes else []
+      vals = [v for v in vals if not (isinstance(v, ast.Constant) and v.value is None)]      # the "no default seen yet" marker
+      return bool(vals) and all(isinstance(v, ast.Call) and dotted(v.func) == 'RelayRule' and any(always_true(x) for x in ast.walk(v))
+                                for v in vals)
+    elements = []        # (part index, 'default' | 'pattern', in the section loop?, after it?, node)
+    problems = []
+    for pi, part in enumerate(parts):
+      if isinstance(part, ast.List):
+        for e in part.elts:
+          elements.append((pi, 'default' if is_default(e, ret_nodes[0]) else 'pattern', False, True, e))
+        continue
+      muts = [c for c in walk_no_nested(lr.node, include_self=False) if isinstance(c, ast.Call) and isinstance(c.func, ast.Attribute)
+              and dotted(c.func.value) == part.id]
+      for c in muts:
+        if c.func.attr != 'append' or len(c.args) != 1:
+          problems.append((c, '`%s` can place a rule ahead of earlier ones' % short(c)))
+          continue
+        inl = any(x is c for x in ast.walk(lp.owner))
+        elements.append((pi, 'default' if is_default(c.args[0], c) else 'pattern', inl, (not inl) and c.lineno > lp.owner.end_lineno, c))
+    if problems:
+      for c, msg in problems:
+        r_o.violate('rule list not append-only', lr, c, msg)
     else:
-      r_o.violate('default rule not last', lr, (after or in_loop or [lp.owner])[0], 'pattern rules are not appended inside the '
-                  'loop over parser.sections() with the default rule appended after it')
+      r_o.ok('rule lists built by append only', lr.loc(lp.owner))
+    pats = [e for e in elements if e[1] == 'pattern']
+    dfls = [e for e in elements if e[1] == 'default']
+    bad_order = None
+    if not pats or not dfls:
+      bad_order = (lp.owner, 'pattern rules are not appended inside the loop over parser.sections() with the default rule placed behind them')
+    for e in pats:
+      if not e[2]:
+        bad_order = bad_order or (e[4], 'a pattern rule is added outside the loop over parser.sections(): not in file order')
+    for d in dfls:
+      for e in pats:
+        if d[0] < e[0] or (d[0] == e[0] and not d[3]):
+          bad_order = bad_order or (d[4], 'the default rule is not placed behind every pattern rule (it is added %s)' % (
+            'to an earlier part of the returned list' if d[0] < e[0] else 'to the same list before the section loop has finished'))
+    if bad_order is None:
+      r_o.ok('pattern rules appended in section order, default rule behind them', lr.loc(dfls[0][4]))
+    else:
+      r_o.violate('default rule not last', lr, bad_order[0], bad_order[1])
     # per-section state: every name used to build a RelayRule in the loop is defined earlier in the same iteration
     start = [y for y, lab in lp.succ if isinstance(lab, tuple) and lab[0] == 'T']
     for n in inside:
